@@ -282,7 +282,7 @@ def check_step(ctx, cfg, seg, kind, nv, units, lr_expected, tags, wit):
                 bad.append((pname, "grad is None", 0, 0))
                 continue
             gl = g.numpy()
-            tol = (1e-10 + TAU * units) * kappa * (1 + np.abs(want).max())
+            tol = (1e-10 + gen.tau_sp(nv, am, ph)) * kappa * (1 + np.abs(want).max())
             if gl.shape != want.shape:
                 bad.append((pname, f"shape {gl.shape} != {want.shape}", 0, 0))
             elif np.any(np.abs(gl - want) > tol):
